@@ -61,3 +61,36 @@ variant("cons-count-true-int", ["C01", "C12"], CONS, """            if x is True
             operands.append(x.cond(1, 0))""", """            constant += 1 if x else 0
         elif isinstance(x, BoolExpr):
             operands.append(x.cond(1, 0))""")
+SOLVER = "cspuz/solver.py"
+mutant("z3m-lo-strict", "C01", Z3, "solver.add(var.lo <= var_z3, var_z3 <= var.hi)", "solver.add(var.lo < var_z3, var_z3 <= var.hi)", "Z3M-1")
+mutant("z3m-hi-missing", "C01", Z3, "solver.add(var.lo <= var_z3, var_z3 <= var.hi)", "solver.add(var.lo <= var_z3)", "Z3M-1")
+mutant("z3m-bool-sol-skipped", "C01", Z3, """            if isinstance(var, BoolVar):
+                var.sol = z3.is_true(model[var_z3])
+            elif isinstance(var, IntVar):""", """            if isinstance(var, IntVar):""", "Z3M-2")
+mutant("z3m-bool-negated", "C01", Z3, "var.sol = z3.is_true(model[var_z3])", "var.sol = not z3.is_true(model[var_z3])", "Z3M-2")
+mutant("z3m-unsat-inverted", "C01", Z3, "if solver.check() == z3.unsat:", "if solver.check() != z3.unsat:", "Z3M-3")
+mutant("z3m-constraints-dropped", "C01", Z3, "        solver.add(self.converted_constraints)\n", "", "Z3M-3")
+mutant("z3m-same-name", "C01", Z3, 'z3.Bool("b" + str(id_last))', 'z3.Bool("b")', "Z3M-4")
+mutant("z3m-addc-overwrite", "C01", Z3, "self.converted_constraints.append(_convert_expr(constraint, self.variables_dict))", "self.converted_constraints = [_convert_expr(constraint, self.variables_dict)]", "Z3M-4")
+variant("z3m-two-adds", "C01", Z3, "solver.add(var.lo <= var_z3, var_z3 <= var.hi)", "solver.add(var.lo <= var_z3)\n                solver.add(z3.Not(var_z3 > var.hi))")
+variant("z3m-name-by-id", "C01", Z3, 'z3.Bool("b" + str(id_last))', 'z3.Bool("b" + str(v.id))')
+mutant("vid-id-const", "C01", SOLVER, "v = BoolVar(len(self.variables))", "v = BoolVar(len(self.constraints))", "VID-1")
+mutant("vid-no-flag", "C01", SOLVER, """        v = IntVar(len(self.variables), lo, hi)
+        self.variables.append(v)
+        self.is_answer_key.append(False)""", """        v = IntVar(len(self.variables), lo, hi)
+        self.variables.append(v)""", "VID-1")
+mutant("vid-constraints-truncated", "C01", SOLVER, """        csp_solver = backend_type(self.variables)  # type: ignore
+        csp_solver.add_constraint(self.constraints)
+        return csp_solver.solve()""", """        csp_solver = backend_type(self.variables)  # type: ignore
+        csp_solver.add_constraint(self.constraints[:-1])
+        return csp_solver.solve()""", "VID-3")
+mutant("vid-constraints-reset", "C01", SOLVER, """        csp_solver.add_constraint(self.constraints)
+        return csp_solver.solve()""", """        csp_solver.add_constraint(self.constraints)
+        self.constraints = []
+        return csp_solver.solve()""", "VID-2")
+mutant("vid-ensure-pop", "C01", SOLVER, """            if isinstance(x, (BoolExpr, bool)):
+                self.constraints.append(x)""", """            if isinstance(x, (BoolExpr, bool)):
+                self.constraints.append(x)
+                if x is True:
+                    self.constraints.pop()
+                    self.constraints.pop()""", "VID-2")
